@@ -47,6 +47,13 @@ partial def treeOfJ (j : J) : Option Tree := do
   let p ← (j.get? "p") >>= strOfJ
   let tip ← (j.get? "tip") >>= strOfJ
   match j.get? "leaf" with
+  | some (.arr [.str tag, n, c]) =>
+    let cn ← strOfJ n
+    let css ← strOfJ c
+    let kind ← if tag == "num" then some (LeafKind.num cn css) else if tag == "opaque" then some (LeafKind.other cn css) else none
+    let repr ← (j.get? "repr") >>= strOfJ
+    let raw ← (j.get? "raw") >>= strOfJ
+    pure (.leaf k p kind repr raw tip)
   | some (.str lk) =>
     let kind ← leafKindOfName lk
     let repr ← (j.get? "repr") >>= strOfJ
@@ -66,6 +73,20 @@ def optIntOfJ : J → Option (Option Int)
   | .null => some none
   | .int i => some (some i)
   | _ => none
+
+partial def predOfJ (j : J) : Option Pred :=
+  match j.get? "all", j.get? "paths", j.get? "depth", j.get? "not", j.get? "or" with
+  | some _, _, _, _, _ => some .all
+  | _, some (.arr ps), _, _, _ => (ps.mapM keysOfJ).map .paths
+  | _, _, some d, _, _ => d.asNat?.map .depth
+  | _, _, _, some q, _ => (predOfJ q).map .neg
+  | _, _, _, _, some (.arr [a, b]) => do pure (.or (← predOfJ a) (← predOfJ b))
+  | _, _, _, _, _ => none
+
+def optPredOfJ : Option J → Option (Option Pred)
+  | none => some none
+  | some .null => some none
+  | some j => (predOfJ j).map some
 
 def colorOfJ : J → Option (Option (Option Str × Option Str))
   | .null => some none
@@ -96,7 +117,12 @@ def optsOfJ (j : J) : Option Opts := do
   let ll ← (j.getArr? "lowlight") >>= (·.mapM keysOfJ)
   let title ← (j.get? "title") >>= optStrOfJ
   let css ← (j.get? "css_classes") >>= strsOfJ
+  let incP ← optPredOfJ (j.get? "include_p")
+  let excP ← optPredOfJ (j.get? "exclude_p")
+  let ksP ← optPredOfJ (j.get? "key_style_p")
+  let unP ← optPredOfJ (j.get? "uncollapse_p")
   pure { keyColor := kc, highlight := hl, lowlight := ll,
+         includeP := incP, excludeP := excP, keyStyleP := ksP, uncollapseP := unP,
          top := { title := title, cssClasses := css, summaryColor := sc },
          enableSummary := es, enableSummaryForStr := esfs, maxSummaryLenForStr := maxl,
          enableSummaryTooltip := est, enableKeyTooltip := ekt, keyStyle := ks, collapseLevel := cl,
@@ -215,6 +241,14 @@ def handle (j : J) : J :=
                      | some (v, rest) => .obj [("value", strToJ v), ("rest", strToJ rest)]
                      | none => .null))]
     | none => bad "jsread"
+  | some "renders" =>
+    match j.getArr? "items" with
+    | some items =>
+      .obj [("htmls", .arr (items.map fun it =>
+        match (it.get? "opts") >>= optsOfJ, (it.get? "tree") >>= treeOfJ with
+        | some o, some t => strToJ (renderTree sites o t)
+        | _, _ => .null))]
+    | none => bad "renders"
   | some "sites" =>
     .obj [("all_escaped", .bool sites.allEscaped),
           ("table", .arr (siteTable.map fun p => .arr [.str (reprStr p.1), .bool p.2]))]
